@@ -1,149 +1,52 @@
-"""C09 — wallet sync converges to the server's history, balance and UTXO set (work in progress)
+"""C09 — wallet sync converges to the server's history, balance and UTXO set.
+
+This is a whole-history property; per-call contracts carry only part of it.  What is decided how:
+
+DEDUCTIVE (the real functions are symbolically executed; network and database are duck-typed fakes that record calls):
+ * `update_history[n,...]`, `update_history.same-status`, `update_history.failure-releases-lock` - the real
+   `Ledger.update_history` (with `maybe_has_channel_key`) for ANY address and statuses, a server list of 0..3 transactions
+   with symbolic heights and an ARBITRARY stored history: what is saved is the server's list rendered "txid:height:" in the
+   server's order, for that address; it is saved iff the server lists something the wallet does not have; everything new is
+   requested; all reads/fetches/writes happen while `_address_update_locks[address]` is held and the lock is released on every
+   path (also when the server or the database fails); equal status -> nothing fetched, nothing saved; gap maintenance
+   runs after the save.  `get_local_status_and_history` and `request_synced_transactions` are replaced by their contracts.
+ * `gap[g]` - the real `HierarchicalDeterministic.ensure_address_gap` / `_generate_keys` against the call-site contract of the
+   address tables, ARBITRARY used_times: the last `gap` addresses are unused afterwards, indices are consecutive, nothing is
+   generated when the gap is there, new addresses are announced (subscribed).
+ * `transaction_io.rows` - the real `Database._transaction_io` / `tx_to_row` / `txo_to_row` / `_insert_sql` on real
+   `Transaction` objects with symbolic hashes and amounts: outputs paying the address and spends of the address are recorded,
+   nothing foreign is booked on the address.
+BOUNDED (labelled stand-ins, never counted as proved):
+ * `sync.convergence[...]` - THE stand-in for the convergence clauses: the REAL Ledger + sqlite Database + Account against a
+   fake wallet server over seeded random chains (blocks + mempool that fund, spend, claim, support and re-spend wallet addresses,
+   third-party outputs of every template kind, growth in stages, notifications in random order, sequentially, concurrently,
+   through `process_status_update` and through gathered `update_history` calls, duplicated and stale).  Afterwards, against an
+   oracle computed from the chain DEFINITION: stored history of every address == server history; balance, balance incl. claims,
+   detailed balance, confirmed balance; `get_utxos()` ids; stored transaction heights; funds at the far end of the gap found;
+   the last `gap` addresses of each chain unused, indices consecutive, every address subscribed.
+ * `history-string.parse-back` (engine gap C09_1), `sync.input-resolution` (engine gap C09_4), `classification.*` (arbitrary script
+   bytes: tokenizer loop outside reach).
+KNOWN FINDINGS (known_findings.d/C09.json; the clauses are kept, the witnesses are kept alive by `*.known-*` proofs):
+ * F10  - a third-party output whose script matches no template (bare multisig, OP_RETURN with two pushes, truncated PUSHDATA)
+   makes `Database._transaction_io` raise (ValueError / struct.error from `txo.script.is_pay_pubkey_hash`): the batch is aborted
+   and the history of the address is never stored.
+ * F10b - a claim / update / support output (a TEMPLATE script) whose claim name is not valid UTF-8 makes `txo_to_row` raise
+   UnicodeDecodeError (`txo.claim_name`) as soon as the output has to be stored (it pays a wallet address, or the transaction
+   spends from the wallet): anybody can send such an output to an address of the wallet and stop that address from syncing.
 """
 import asyncio
+import hashlib
+from operator import itemgetter
 from pyvc.api import *
 from pyvc.speclib import implies
-import hashlib
 from lbry.wallet.account import HierarchicalDeterministic
 from lbry.wallet.ledger import Ledger
-
-
-# ====================================================================== (c) gap maintenance
-
-class GapKey:
-    """what the address manager reads of a BIP32 public key: the child index and the address (derivation itself: C06)"""
-
-    def __init__(self, path):
-        self.path = path
-        self.n = path[len(path) - 1] if len(path) > 0 else 0
-        self.address = 'address' + ''.join(['/%d' % p for p in path])
-
-    def child(self, n):
-        return GapKey(self.path + (n,))
-
-
-class GapDb:
-    """call-site contract of the address tables as the address manager uses them: rows (n, used_times) of one chain;
-    ORDER BY n DESC|ASC LIMIT k returns the k rows of highest|lowest n in that order; add_keys inserts unused rows"""
-
-    def __init__(self, manager_ref):
-        self.rows = []
-        self.manager_ref = manager_ref
-        self.writes_without_lock = 0
-        self.queries = []
-
-    async def get_addresses(self, read_only=False, accounts=None, chain=None, limit=None, order_by=None):
-        self.queries.append((chain, limit, order_by))
-        rows = [r for r in self.rows if r['chain'] == chain]
-        if order_by == "n desc":
-            rows = [rows[len(rows) - 1 - i] for i in range(len(rows))]
-        if limit is not None:
-            rows = rows[:limit]
-        return [dict(address=r['address'], used_times=r['used_times'], pubkey=r['pubkey'], chain=r['chain']) for r in rows]
-
-    async def add_keys(self, account, chain, pubkeys):
-        if not self.manager_ref[0].address_generator_lock.locked():
-            self.writes_without_lock += 1
-        for k in pubkeys:
-            if not [r for r in self.rows if r['address'] == k.address]:
-                self.rows.append(dict(address=k.address, used_times=0, pubkey=k, chain=chain))
-
-
-class GapLedger:
-    def __init__(self, db):
-        self.db = db
-        self.announced = []
-
-    async def announce_addresses(self, address_manager, addresses):
-        self.announced.append(list(addresses))
-
-
-class GapAccount:
-    def __init__(self, ledger):
-        self.ledger = ledger
-        self.public_key = GapKey(())
-
-
-async def gap_scenario(gap, m, used):
-    ref = [None]
-    db = GapDb(ref)
-    ledger = GapLedger(db)
-    am = HierarchicalDeterministic(GapAccount(ledger), 1, gap, 1)
-    ref[0] = am
-    chain_key = GapKey((1,))
-    for i in range(m):
-        k = chain_key.child(i)
-        db.rows.append(dict(address=k.address, used_times=used[i], pubkey=k, chain=1))
-    db.rows.append(dict(address='other-chain', used_times=5, pubkey=GapKey((0, 0)), chain=0))
-    new = await am.ensure_address_gap()
-    after = [(r['pubkey'].n, r['used_times'], r['address']) for r in db.rows if r['chain'] == 1]
-    again = await am.ensure_address_gap()
-    return new, after, ledger.announced, db.writes_without_lock, am.address_generator_lock.locked(), again, len(db.rows)
-
-
-def make_gap_proof(gap):
-    M = gap + 2
-
-    class Gap:
-        inputs = dict(m=TOneOf(*[TConst(i) for i in range(M + 1)]), used=TList(TInt(0, 1000), n=M))
-        note = f"gap {gap}: every chain length 0..{M} x every used/unused pattern"
-
-        def run(m, used):
-            return gap_scenario(gap, m, used)
-
-        def ensures_last_gap_addresses_unused(result):
-            after = result[1]
-            ok = len(after) >= gap
-            for r in after[len(after) - gap:]:
-                ok = ok and r[1] == 0
-            return ok
-
-        def ensures_indices_consecutive_from_previous_maximum(m, used, result):
-            new, after = result[0], result[1]
-            ok = len(after) == m + len(new)
-            for i in range(len(after)):
-                ok = ok and after[i][0] == i and after[i][2] == 'address/1/%d' % i
-                if i < m:
-                    ok = ok and after[i][1] == used[i]
-                else:
-                    ok = ok and after[i][1] == 0 and new[i - m] == after[i][2]
-            return ok
-
-        def ensures_nothing_generated_when_gap_is_there(m, used, result):
-            there = m >= gap
-            for i in range(max(0, m - gap), m):
-                there = there and used[i] == 0
-            return implies(there, result[0] == [] and len(result[1]) == m and result[2] == [])
-
-        def ensures_new_addresses_announced_for_subscription(result):
-            return result[2] == ([result[0]] if result[0] else [])
-
-        def ensures_idempotent_and_lock_discipline(m, result):
-            return result[5] == [] and result[3] == 0 and result[4] == False and result[6] == len(result[1]) + 1     # noqa
-
-        def samples():
-            import itertools
-            for m in range(M + 1):
-                for pat in itertools.product([0, 1, 3], repeat=m):
-                    yield dict(m=m, used=list(pat) + [0] * (M - m))
-
-    Gap.__doc__ = (f"HierarchicalDeterministic.ensure_address_gap/_generate_keys, gap {gap}, against the call-site contract of the address "
-                   f"tables: a chain of 0..{M} addresses with ARBITRARY used_times; afterwards the last {gap} addresses are unused, new "
-                   f"indices continue the chain without holes, old rows and the other chain are untouched, nothing is generated when the "
-                   f"gap is already there, what was generated is announced (subscribed), a second call generates nothing, keys are "
-                   f"written under the generator lock and the lock is released")
-    proof("C09", f"gap[{gap}]")(Gap)
-
-
-for _g in (1, 2, 3):
-    make_gap_proof(_g)
-
+from lbry.wallet.database import Database
+from lbry.wallet.transaction import Transaction, Output, Input, TXORef
+from lbry.wallet.script import OutputScript
 
 
 # ====================================================================== (a) update_history: diff, fetch, save under the address lock
-
-from operator import itemgetter     # noqa: E402
-
 
 class ItemGetter:
     """operator.itemgetter(k1, k2, ...) as documented: f(obj) == (obj[k1], obj[k2], ...) (two or more keys)"""
@@ -282,17 +185,17 @@ class SyncManager:
 class SyncLedger:
     """the attributes of Ledger that update_history touches; update_history itself is the REAL function.
     get_local_status_and_history is replaced by its contract (first call: the stored state, an input of the proof; second
-    call, on the string just written: either the server's status and list again, or ANY other status with a different list -
-    an over-approximation of every re-parse); request_synced_transactions by its contract (one transaction per requested
+    call, on the string just written: either the server's status and list again, or another status with a different list -
+    both outcomes of the only test made on it); request_synced_transactions by its contract (one transaction per requested
     entry, with the requested id and height, in request order or reversed, then the batch is stored)"""
     update_history = Ledger.update_history
     maybe_has_channel_key = Ledger.maybe_has_channel_key
 
-    def __init__(self, world, remote, remote_status, local_status, local, after_same, status_after, reverse):
+    def __init__(self, world, remote, remote_status, local_status, local, after_same, reverse):
         self.world = world
         self.local_status, self.local = local_status, local
         self.remote, self.remote_status = remote, remote_status
-        self.after_same, self.status_after, self.reverse = after_same, status_after, reverse
+        self.after_same, self.reverse = after_same, reverse
         self._address_update_locks = LockTable(world)
         self._known_addresses_out_of_sync = Flags(world)
         self.network = SyncNetwork(world, remote)
@@ -307,7 +210,7 @@ class SyncLedger:
         self.world.event('reparse', address, history)
         if self.after_same:
             return self.remote_status, list(self.remote)
-        return self.status_after, list(self.remote) + [(TXIDS[3], 1)]
+        return None, list(self.remote) + [(TXIDS[3], 1)]
 
     async def request_synced_transactions(self, to_request, remote_history, address):
         wanted = list(to_request.values())
@@ -331,10 +234,10 @@ def server_history_string(remote):
     return s
 
 
-async def sync_scenario(address, remote_status, local_status, remote, local, after_same, status_after, reverse, pass_manager, fail_at):
+async def sync_scenario(address, remote_status, local_status, remote, local, after_same, reverse, pass_manager, fail_at):
     world = World()
     world.fail_at = fail_at
-    ledger = SyncLedger(world, remote, remote_status, local_status, local, after_same, status_after, reverse)
+    ledger = SyncLedger(world, remote, remote_status, local_status, local, after_same, reverse)
     manager = SyncManager(world, 'passed') if pass_manager else None
     try:
         outcome = await ledger.update_history(address, remote_status, manager)
@@ -355,6 +258,7 @@ def lists_of(n, shape, rs, ls):
 
 
 LOCAL_SHAPES_QUICK = [(), (0,), (1,), (3,), (0, 1), (1, 0), (0, 3), (3, 0), (1, 2)]
+LOCAL_SHAPES_QUICK_3 = [(), (0,), (3,), (0, 1), (1, 0), (0, 1, 2)]
 LOCAL_SHAPES_ALL = [()] + [(a,) for a in range(4)] + [(a, b) for a in range(4) for b in range(4) if a != b] + \
     [(a, b, c) for a in range(4) for b in range(4) for c in range(4) if len({a, b, c}) == 3]
 
@@ -362,18 +266,17 @@ LOCAL_SHAPES_ALL = [()] + [(a,) for a in range(4)] + [(a, b) for a in range(4) f
 def make_update_history_proof(n, shapes, tag, pass_manager, thorough=False):
     class UpdateHistory:
         inputs = dict(address=TStr(), remote_status=TStr(), local_status=TOpt(TStr()), r0=HEIGHT, r1=HEIGHT, r2=HEIGHT,
-                      shape=TOneOf(*[TConst(x) for x in shapes]), l0=HEIGHT, l1=HEIGHT, l2=HEIGHT,
-                      after_same=TBool(), status_after=TStr(), reverse=TBool())
+                      shape=TOneOf(*[TConst(x) for x in shapes]), l0=HEIGHT, l1=HEIGHT, l2=HEIGHT, after_same=TBool(), reverse=TBool())
         thorough_only = thorough
-        note = "12 seeded cases per stored-history shape: local history a prefix, a permutation, stale heights, foreign entries"
+        timeout = 6
+        note = "12 seeded cases per stored-history shape: stored history a prefix, a permutation, stale heights, foreign entries"
 
         def requires(remote_status, local_status):
             return local_status != remote_status
 
-        def run(address, remote_status, local_status, r0, r1, r2, shape, l0, l1, l2, after_same, status_after, reverse):
+        def run(address, remote_status, local_status, r0, r1, r2, shape, l0, l1, l2, after_same, reverse):
             remote, local, missing = lists_of(n, shape, (r0, r1, r2), (l0, l1, l2))
-            return sync_scenario(address, remote_status, local_status, remote, local, after_same, status_after, reverse,
-                                 pass_manager, None)
+            return sync_scenario(address, remote_status, local_status, remote, local, after_same, reverse, pass_manager, None)
 
         def ensures_saved_history_is_the_servers_list_for_that_address(address, r0, r1, r2, shape, l0, l1, l2, result):
             remote, local, missing = lists_of(n, shape, (r0, r1, r2), (l0, l1, l2))
@@ -424,7 +327,7 @@ def make_update_history_proof(n, shapes, tag, pass_manager, thorough=False):
                     ls = [rs[shape[j]] if shape[j] < 3 and r.random() < 0.6 else r.choice([-1, 0, 5, 9]) for j in range(len(shape))] \
                         + [0] * (3 - len(shape))
                     yield dict(address='bAddr%d' % k, remote_status=r.choice(['aa', 'bb']), local_status=r.choice([None, 'cc']), r0=rs[0],
-                               r1=rs[1], r2=rs[2], shape=shape, l0=ls[0], l1=ls[1], l2=ls[2], after_same=r.random() < 0.7, status_after='dd',
+                               r1=rs[1], r2=rs[2], shape=shape, l0=ls[0], l1=ls[1], l2=ls[2], after_same=r.random() < 0.7,
                                reverse=r.random() < 0.5)
 
     UpdateHistory.__doc__ = (
@@ -442,9 +345,9 @@ def make_update_history_proof(n, shapes, tag, pass_manager, thorough=False):
 make_update_history_proof(0, LOCAL_SHAPES_QUICK, 'stored<=2', True)
 make_update_history_proof(1, LOCAL_SHAPES_QUICK, 'stored<=2', False)
 make_update_history_proof(2, LOCAL_SHAPES_QUICK, 'stored<=2', True)
-make_update_history_proof(3, LOCAL_SHAPES_QUICK, 'stored<=2', True)
+make_update_history_proof(3, LOCAL_SHAPES_QUICK_3, 'stored<=3', True)
 for _n in (1, 2, 3):
-    make_update_history_proof(_n, LOCAL_SHAPES_ALL, 'stored<=3,all-shapes', _n == 2, thorough=True)
+    make_update_history_proof(_n, LOCAL_SHAPES_ALL, 'every stored shape <=3', _n == 2, thorough=True)
 
 
 @proof("C09", "update_history.same-status")
@@ -457,7 +360,7 @@ class UpdateHistorySameStatus:
 
     def run(address, status, r0, l0, n):
         remote, local, missing = lists_of(n, (1,), (r0, 5, 6), (l0, 0, 0))
-        return sync_scenario(address, status, status, remote, local, True, 'x', False, False, None)
+        return sync_scenario(address, status, status, remote, local, True, False, False, None)
 
     def ensures_nothing_fetched_nothing_saved(address, result):
         return (result[0] == True and [e[0] for e in result[1]] == ['out-of-sync.discard', 'read_local']        # noqa
@@ -474,9 +377,9 @@ class UpdateHistorySameStatus:
 
 @proof("C09", "update_history.failure-releases-lock")
 class UpdateHistoryFailure:
-    """Ledger.update_history when the server or the database fails (an OSError raised by get_history, by the batch fetch, by
-    the batch store or by the history write): the error propagates, nothing is saved after the failure, and the lock of the
-    address is free again (released on every path)"""
+    """Ledger.update_history when the server or the database fails (an OSError raised when the stored state is read, by
+    get_history, by the batch fetch, by the batch store, by the history write or by gap maintenance): the error propagates,
+    nothing is saved after the failure, and the lock of the address is free again (released on every path)"""
     inputs = dict(address=TStr(), remote_status=TStr(), r0=HEIGHT, r1=HEIGHT,
                   fail_at=TOneOf(TConst('read_local'), TConst('get_history'), TConst('fetch'), TConst('batch_stored'), TConst('save_history'),
                                  TConst('ensure_address_gap')))
@@ -484,7 +387,7 @@ class UpdateHistoryFailure:
 
     def run(address, remote_status, r0, r1, fail_at):
         remote, local, missing = lists_of(2, (), (r0, r1, 0), (0, 0, 0))
-        return sync_scenario(address, remote_status, None, remote, local, True, 'x', False, True, fail_at)
+        return sync_scenario(address, remote_status, None, remote, local, True, False, True, fail_at)
 
     def ensures_error_propagates_and_lock_is_released(address, fail_at, result):
         kinds = [e[0] for e in result[1]]
@@ -496,6 +399,1182 @@ class UpdateHistoryFailure:
             yield dict(address='bAddr', remote_status='aa', r0=5, r1=0, fail_at=f)
 
 
-TRUSTED = []
-NOT_DECIDED = []
-ASSUMPTIONS = []
+# ====================================================================== (b) the stored history string and its status (bounded)
+
+class HistDb:
+    def __init__(self, row):
+        self.row = row
+        self.asked = []
+
+    async def get_address(self, read_only=False, **constraints):
+        self.asked.append(constraints)
+        return self.row
+
+
+class HistLedger:
+    get_local_status_and_history = Ledger.get_local_status_and_history
+
+    def __init__(self, db):
+        self.db = db
+
+
+def _history_case(case):
+    import random
+    r = random.Random(case)
+    n = (0, 1, 2, 3, 5, 17, 100)[case % 7] if case % 11 else r.randint(0, 120)
+    items = []
+    for k in range(n):
+        items.append((hashlib.sha256(b'tx %d %d' % (case, k)).hexdigest(), r.choice([-1, 0, 1, 9, 10, r.randint(1, 2 * 10 ** 6)])))
+    return items
+
+
+@proof("C09", "history-string.parse-back")
+class HistoryString:
+    """BOUNDED stand-in (engine gap C09_1: `parts[0::2]` - a slice with a step - is outside the generator's reach): the real
+    Ledger.get_local_status_and_history on the protocol's history string of a list of transactions, given as argument or read from
+    the address row (row missing / history NULL included): the list parsed back is the list the string was written from, the
+    status is the hex SHA-256 of the string, None for the empty history; the row of THAT address is read"""
+    bounded_only = True
+    note = "400 seeded lists of 0..120 (64-hex id, height in {-1, 0, 1, 9, 10, random < 2e6}) x {argument, stored row}; + no row / NULL history"
+    inputs = dict(case=TInt(0, 10 ** 6), source=TStr())
+
+    def run(case, source):
+        items = _history_case(case)
+        text = server_history_string(items)
+        if source == 'argument':        # an empty argument means "not given": the stored row is read
+            db = HistDb({'history': ('ff' * 32 + ':5:') if items else '', 'address': 'A'})
+            got = asyncio.run(HistLedger(db).get_local_status_and_history('A', text))
+        else:
+            db = HistDb(None if source == 'no-row' else {'history': None if source == 'null' else text, 'address': 'A'})
+            got = asyncio.run(HistLedger(db).get_local_status_and_history('A'))
+        return got, db.asked
+
+    def ensures_parses_back_and_status_is_sha256_hex(case, source, result):
+        items = _history_case(case) if source in ('argument', 'row') else []
+        text = server_history_string(items)
+        return result[0] == ((hashlib.sha256(text.encode()).hexdigest() if items else None), items)
+
+    def ensures_reads_the_row_of_that_address(case, source, result):
+        return result[1] == ([] if source == 'argument' and _history_case(case) else [{'address': 'A'}])
+
+    def samples():
+        for case in range(200):
+            yield dict(case=case, source='argument')
+            yield dict(case=case, source='row')
+        yield dict(case=3, source='no-row')
+        yield dict(case=3, source='null')
+
+
+# ====================================================================== (c) gap maintenance
+
+class GapKey:
+    """what the address manager reads of a BIP32 public key: the child index and the address (derivation itself: C06)"""
+
+    def __init__(self, path):
+        self.path = path
+        self.n = path[len(path) - 1] if len(path) > 0 else 0
+        self.address = 'address' + ''.join(['/%d' % p for p in path])
+
+    def child(self, n):
+        return GapKey(self.path + (n,))
+
+
+class GapDb:
+    """call-site contract of the address tables as the address manager uses them: rows (n, used_times) per chain;
+    ORDER BY n DESC|ASC LIMIT k returns the k rows of highest|lowest n in that order; add_keys inserts unused rows"""
+
+    def __init__(self, manager_ref):
+        self.rows = []
+        self.manager_ref = manager_ref
+        self.writes_without_lock = 0
+
+    async def get_addresses(self, read_only=False, accounts=None, chain=None, limit=None, order_by=None):
+        rows = [r for r in self.rows if r['chain'] == chain]
+        if order_by == "n desc":
+            rows = [rows[len(rows) - 1 - i] for i in range(len(rows))]
+        if limit is not None:
+            rows = rows[:limit]
+        return [dict(address=r['address'], used_times=r['used_times'], pubkey=r['pubkey'], chain=r['chain']) for r in rows]
+
+    async def add_keys(self, account, chain, pubkeys):
+        if not self.manager_ref[0].address_generator_lock.locked():
+            self.writes_without_lock += 1
+        for k in pubkeys:
+            if not [r for r in self.rows if r['address'] == k.address]:
+                self.rows.append(dict(address=k.address, used_times=0, pubkey=k, chain=chain))
+
+
+class GapLedger:
+    def __init__(self, db):
+        self.db = db
+        self.announced = []
+
+    async def announce_addresses(self, address_manager, addresses):
+        self.announced.append(list(addresses))
+
+
+class GapAccount:
+    def __init__(self, ledger):
+        self.ledger = ledger
+        self.public_key = GapKey(())
+
+
+async def gap_scenario(gap, m, used):
+    ref = [None]
+    db = GapDb(ref)
+    ledger = GapLedger(db)
+    am = HierarchicalDeterministic(GapAccount(ledger), 1, gap, 1)
+    ref[0] = am
+    chain_key = GapKey((1,))
+    for i in range(m):
+        k = chain_key.child(i)
+        db.rows.append(dict(address=k.address, used_times=used[i], pubkey=k, chain=1))
+    db.rows.append(dict(address='other-chain', used_times=5, pubkey=GapKey((0, 0)), chain=0))
+    new = await am.ensure_address_gap()
+    after = [(r['pubkey'].n, r['used_times'], r['address']) for r in db.rows if r['chain'] == 1]
+    again = await am.ensure_address_gap()
+    return new, after, ledger.announced, db.writes_without_lock, am.address_generator_lock.locked(), again, len(db.rows)
+
+
+def make_gap_proof(gap, thorough=False):
+    M = gap + 2
+
+    class Gap:
+        inputs = dict(m=TOneOf(*[TConst(i) for i in range(M + 1)]), used=TList(TInt(0, 1000), n=M))
+        thorough_only = thorough
+        note = f"gap {gap}: chain lengths 0..{M} x used/unused patterns ({'every pattern' if M <= 5 else '40 seeded patterns per length'})"
+
+        def run(m, used):
+            return gap_scenario(gap, m, used)
+
+        def ensures_last_gap_addresses_unused(result):
+            after = result[1]
+            ok = len(after) >= gap
+            for r in after[len(after) - gap:]:
+                ok = ok and r[1] == 0
+            return ok
+
+        def ensures_indices_consecutive_from_previous_maximum(m, used, result):
+            new, after = result[0], result[1]
+            ok = len(after) == m + len(new)
+            for i in range(len(after)):
+                ok = ok and after[i][0] == i and after[i][2] == 'address/1/%d' % i
+                if i < m:
+                    ok = ok and after[i][1] == used[i]
+                else:
+                    ok = ok and after[i][1] == 0 and new[i - m] == after[i][2]
+            return ok
+
+        def ensures_nothing_generated_when_gap_is_there(m, used, result):
+            there = m >= gap
+            for i in range(max(0, m - gap), m):
+                there = there and used[i] == 0
+            return implies(there, result[0] == [] and len(result[1]) == m and result[2] == [])
+
+        def ensures_new_addresses_announced_for_subscription(result):
+            return result[2] == ([result[0]] if result[0] else [])
+
+        def ensures_idempotent_and_lock_discipline(m, result):
+            return result[5] == [] and result[3] == 0 and result[4] == False and result[6] == len(result[1]) + 1     # noqa
+
+        def samples():
+            import itertools
+            import random
+            r = random.Random(gap)
+            for m in range(M + 1):
+                if M <= 5:
+                    for pat in itertools.product([0, 1, 3], repeat=m):
+                        yield dict(m=m, used=list(pat) + [0] * (M - m))
+                else:
+                    for _ in range(40):
+                        yield dict(m=m, used=[r.choice([0, 0, 1, 2]) for _ in range(m)] + [0] * (M - m))
+
+    Gap.__doc__ = (f"HierarchicalDeterministic.ensure_address_gap/_generate_keys, gap {gap}, against the call-site contract of the address "
+                   f"tables: a chain of 0..{M} addresses with ARBITRARY used_times; afterwards the last {gap} addresses are unused, new "
+                   f"indices continue the chain without holes, old rows and the other chain are untouched, nothing is generated when the "
+                   f"gap is already there, what was generated is announced (subscribed), a second call generates nothing, keys are "
+                   f"written under the generator lock and the lock is released")
+    proof("C09", f"gap[{gap}]")(Gap)
+
+
+for _g in (1, 2, 3):
+    make_gap_proof(_g)
+for _g in (4, 6, 20):
+    make_gap_proof(_g, thorough=True)
+
+
+# ====================================================================== (e) what _transaction_io writes for one address
+
+class IoCursor:
+    def fetchall(self):
+        return []
+
+
+class IoConn:
+    """records the statements _transaction_io executes (the SQL text is built by the real _insert_sql)"""
+
+    def __init__(self):
+        self.statements = []
+
+    def execute(self, sql, values=()):
+        self.statements.append((sql, list(values)))
+        return IoCursor()
+
+
+class IoHeaders:
+    def estimated_julian_day(self, height):
+        return 2450000 + height // 576
+
+
+class IoLedger:
+    """address <-> hash160 is a bijection (Base58Check, C06): an address is modelled as the tagged hash"""
+
+    def __init__(self):
+        self.headers = IoHeaders()
+
+    def hash160_to_address(self, h160):
+        return ('pubkey-address', h160)
+
+    def hash160_to_script_address(self, h160):
+        return ('script-address', h160)
+
+
+def io_rows(statements, table):
+    """rows written into `table` as dicts column -> value (column list parsed from the INSERT text)"""
+    out = []
+    for sql, values in statements:
+        head = sql.split(' (')[0]
+        if head.endswith('INTO ' + table):
+            cols = sql.split(' (')[1].split(')')[0].split(', ')
+            out.append(dict(zip(cols, values)))
+    return out
+
+
+def io_scenario(txhash, h0, a0, h1, a1, sh, a2, spent0, g0, b0, spent1, g1, b1, height):
+    db = Database(':memory:')
+    db.ledger = IoLedger()
+    src0 = Transaction(height=3).add_outputs([Output.pay_pubkey_hash(b0, g0)])
+    src1 = Transaction(height=4).add_outputs([Output.pay_script_hash(1, b'\x05' * 20), Output.pay_pubkey_hash(b1, g1)])
+    i0, i1 = Input.spend(src0.outputs[0]), Input.spend(src1.outputs[1])
+    tx = Transaction(height=height).add_inputs([i0, i1]).add_outputs(
+        [Output.pay_pubkey_hash(a0, h0), Output.pay_script_hash(a2, sh), Output.pay_pubkey_hash(a1, h1)])
+    ids = (tx.id, src0.outputs[0].id, src1.outputs[1].id)
+    if not spent0:      # the wallet could not resolve this input (its source is not in this address's history)
+        i0.txo_ref = TXORef(src0.outputs[0].tx_ref, 0)
+    if not spent1:
+        i1.txo_ref = TXORef(src1.outputs[1].tx_ref, 1)
+    conn = IoConn()
+    db._transaction_io(conn, tx, ('pubkey-address', txhash), txhash)
+    return conn.statements, ids
+
+
+H160 = TBytes(length=20)
+AMT = TInt(0, 21 * 10 ** 14)
+
+
+@proof("C09", "transaction_io.rows")
+class TransactionIo:
+    """Database._transaction_io (with tx_to_row, txo_to_row, _insert_sql) on a transaction with two P2PKH outputs and a P2SH output
+    of symbolic hashes and amounts and two inputs, each resolved to a P2PKH output of a symbolic hash or left unresolved, saved
+    for an ARBITRARY address hash: every output paying the address gets a txo row (id txid:n, that address, its amount and
+    position); every resolved input spending an output of the address gets a txi row naming that output; no row claims the
+    address for an output paying somebody else; the transaction row carries the height"""
+    inputs = dict(txhash=H160, h0=H160, a0=AMT, h1=H160, a1=AMT, sh=H160, a2=AMT, spent0=TBool(), g0=H160, b0=AMT,
+                  spent1=TBool(), g1=H160, b1=AMT, height=TInt(-1, 10 ** 7))
+    timeout = 6
+    note = "64 seeded combinations of equal / different hashes and resolved / unresolved inputs"
+
+    def run(txhash, h0, a0, h1, a1, sh, a2, spent0, g0, b0, spent1, g1, b1, height):
+        return io_scenario(txhash, h0, a0, h1, a1, sh, a2, spent0, g0, b0, spent1, g1, b1, height)
+
+    def ensures_outputs_paying_the_address_are_recorded(txhash, h0, a0, h1, a1, result):
+        rows = io_rows(result[0], 'txo')
+        txid = result[1][0]
+        ok = True
+        for n, h, a in ((0, h0, a0), (2, h1, a1)):
+            if h == txhash:
+                ok = ok and len([r for r in rows if r['txoid'] == '%s:%d' % (txid, n) and r['txid'] == txid and r['position'] == n
+                                 and r['amount'] == a and r['address'] == ('pubkey-address', txhash)]) == 1
+        return ok
+
+    def ensures_spends_of_the_address_are_recorded(txhash, spent0, g0, spent1, g1, result):
+        rows = io_rows(result[0], 'txi')
+        txid = result[1][0]
+        ok = True
+        for k, spent, g in ((0, spent0, g0), (1, spent1, g1)):
+            if spent and g == txhash:
+                ok = ok and len([r for r in rows if r['txoid'] == result[1][1 + k] and r['txid'] == txid
+                                 and r['address'] == ('pubkey-address', txhash) and r['position'] == k]) == 1
+        return ok
+
+    def ensures_nothing_foreign_is_booked_on_the_address(txhash, h0, h1, spent0, g0, spent1, g1, result):
+        ok = True
+        for r in io_rows(result[0], 'txo'):
+            mine = r['address'] == ('pubkey-address', txhash)
+            ok = ok and (not mine or (r['position'] == 0 and h0 == txhash) or (r['position'] == 2 and h1 == txhash))
+        for r in io_rows(result[0], 'txi'):
+            ok = ok and ((r['position'] == 0 and spent0 and g0 == txhash) or (r['position'] == 1 and spent1 and g1 == txhash))
+        return ok
+
+    def ensures_transaction_row_carries_the_height(height, result):
+        rows = io_rows(result[0], 'tx')
+        return len(rows) == 1 and rows[0]['txid'] == result[1][0] and rows[0]['height'] == height
+
+    def samples():
+        import random
+        r = random.Random(9)
+        hs = [bytes([k]) * 20 for k in (1, 2, 3)]
+        for k in range(64):
+            yield dict(txhash=hs[0], h0=r.choice(hs), a0=r.randint(0, 10 ** 9), h1=r.choice(hs), a1=r.randint(0, 10 ** 9), sh=r.choice(hs), a2=5,
+                       spent0=r.random() < 0.6, g0=r.choice(hs), b0=r.randint(1, 10 ** 9), spent1=r.random() < 0.6, g1=r.choice(hs),
+                       b1=r.randint(1, 10 ** 9), height=r.choice([-1, 0, 1, 700000]))
+
+
+# ====================================================================== (f) input resolution against the pending batch and the database
+
+class RTxRef:
+    def __init__(self, txid):
+        self.id = txid
+
+
+class RTxoRef:
+    def __init__(self, txid, position, txo):
+        self.tx_ref = RTxRef(txid)
+        self.position = position
+        self.txo = txo
+        self.id = '%s:%d' % (txid, position)
+
+
+class RInput:
+    def __init__(self, txid, position):
+        self.txo_ref = RTxoRef(txid, position, None)        # as deserialised from the raw transaction: id and position only
+
+
+class ROutput:
+    def __init__(self, txid, position, amount, origin):
+        self.id = '%s:%d' % (txid, position)
+        self.amount = amount
+        self.origin = origin
+        self.ref = RTxoRef(txid, position, self)
+
+
+class RTx:
+    def __init__(self, txid, amounts, origin, inputs=()):
+        self.id = txid
+        self.outputs = [ROutput(txid, k, amounts[k], origin) for k in range(len(amounts))]
+        self.inputs = list(inputs)
+
+
+class ResolveDb:
+    """call-site contract of the two queries _sync makes: outputs by id, a transaction by id"""
+
+    def __init__(self, txos, txs):
+        self.txos, self.txs = txos, txs
+
+    async def get_txos(self, txoid__in=None, order_by=None, no_tx=False):
+        await asyncio.sleep(0)
+        return [t for t in self.txos if t.id in txoid__in]
+
+    async def get_transaction(self, txid=None):
+        await asyncio.sleep(0)
+        for t in self.txs:
+            if t.id == txid:
+                return t
+        return None
+
+
+class ResolveLedger:
+    _sync = Ledger._sync
+
+    def __init__(self, db):
+        self.db = db
+
+
+async def resolve_scenario(where0, hist0, p0, where1, x0, x1, y0, y1):
+    a_id, c_id, b_id = TXIDS[0], TXIDS[1], TXIDS[2]
+    spender = RTx(b_id, [1], 'batch', [RInput(a_id, p0), RInput(c_id, 1)])
+    pending = {b_id: spender}
+    db_txos, db_txs = [], []
+    for txid, where, amounts in ((a_id, where0, [x0, x1]), (c_id, where1, [y0, y1])):
+        if where == 'pending':
+            pending[txid] = RTx(txid, amounts, 'pending')
+        elif where == 'db-output':
+            db_txos += RTx(txid, amounts, 'db-output').outputs
+        elif where == 'db-transaction':
+            db_txs.append(RTx(txid, amounts, 'db-transaction'))
+    history = {b_id, c_id}
+    if hist0:
+        history.add(a_id)
+    await ResolveLedger(ResolveDb(db_txos, db_txs))._sync(spender, history, pending)
+    out = []
+    for txi in spender.inputs:
+        t = txi.txo_ref.txo
+        out.append(None if t is None else (t.id, t.amount, t.origin))
+    return out
+
+
+@proof("C09", "sync.input-resolution")
+class InputResolution:
+    """BOUNDED stand-in (engine gap C09_4: `check_db_for_txos[txi] = ...` uses a heap object as dictionary key): the real
+    Ledger._sync on a transaction with two inputs whose source transactions are, independently, in the pending batch, in the
+    database as stored outputs, in the database as a transaction only, or nowhere: an input whose source is in the address's
+    history and available anywhere ends up resolved to exactly that output (id, amount, taken from where it is); an input
+    whose source is nowhere stays unresolved without an error"""
+    bounded_only = True
+    inputs = dict(where0=TStr(), hist0=TBool(), p0=TInt(0, 1), where1=TStr(), x0=AMT, x1=AMT, y0=AMT, y1=AMT)
+    note = "all 64 combinations of locations, history membership and output position"
+
+    def run(where0, hist0, p0, where1, x0, x1, y0, y1):
+        return asyncio.run(resolve_scenario(where0, hist0, p0, where1, x0, x1, y0, y1))
+
+    def ensures_available_sources_are_resolved_to_the_right_output(where0, hist0, p0, where1, x0, x1, y0, y1, result):
+        ok = True
+        if hist0 and where0 != 'nowhere':
+            ok = ok and result[0] == ('%s:%d' % (TXIDS[0], p0), (x0, x1)[p0], where0)
+        if where1 != 'nowhere':
+            ok = ok and result[1] == ('%s:%d' % (TXIDS[1], 1), y1, where1)
+        return ok
+
+    def ensures_unavailable_sources_stay_unresolved(where0, where1, result):
+        return (where0 != 'nowhere' or result[0] is None) and (where1 != 'nowhere' or result[1] is None)
+
+    def samples():
+        w = ('pending', 'db-output', 'db-transaction', 'nowhere')
+        for where0 in w:
+            for hist0 in (False, True):
+                for p0 in (0, 1):
+                    for where1 in w:
+                        yield dict(where0=where0, hist0=hist0, p0=p0, where1=where1, x0=11, x1=12, y0=21, y1=22)
+
+
+# ====================================================================== (d) exception freedom of output classification (bounded)
+
+MINE_HASH = b'\x07' * 20
+PLACEHOLDER_HASH = b'\x11' * 20
+_REAL = {}
+
+
+def f10_non_template(script):
+    """known finding F10: the script matches none of OutputScript's templates (the script parser refuses it)"""
+    try:
+        OutputScript(script).parse()
+        return False
+    except Exception:       # noqa  (ValueError 'No matching templates', struct.error on a truncated PUSHDATA length)
+        return True
+
+
+def is_utf8(name):
+    try:
+        name.decode()
+        return True
+    except UnicodeDecodeError:
+        return False
+
+
+def f10b_claim_name_not_utf8(script):
+    """known finding F10b: a claim / update / support template script whose claim name is not valid UTF-8"""
+    if f10_non_template(script):
+        return False
+    s = OutputScript(script)
+    return s.is_claim_involved and not is_utf8(s.values['claim_name'])
+
+
+def _real_ledger():
+    """a real Ledger around an unopened Database, only for hash160_to_address / headers (classification needs nothing else)"""
+    if 'ledger' not in _REAL:
+        from lbry.wallet import Headers
+        from lbry.wallet.stream import StreamController
+
+        class _Net:
+            on_header = StreamController().stream
+            on_status = StreamController().stream
+
+        async def make():       # the constructor wants a current event loop (TaskGroup)
+            return Ledger({'db': Database(':memory:'), 'headers': Headers(':memory:'), 'network': _Net()})
+        _REAL['ledger'] = asyncio.run(make())
+    return _REAL['ledger']
+
+
+def script_corpus():
+    """script shapes: every template with sample values, EVERY truncation of each of them, trailing garbage, all one-byte scripts,
+    bare multisig, OP_RETURN forms, truncated PUSHDATA1/2/4, segwit v0 / v1 programs, P2PK with a 65-byte key, wrong hash lengths,
+    and template scripts with hostile VALUES (names that are empty / 300 bytes / non-ASCII / not UTF-8; undecodable payloads)"""
+    from lbry.schema.claim import Claim
+    h = PLACEHOLDER_HASH
+    claim = Claim()
+    claim.stream.title = 't'
+    sample = {'pubkey': b'\x02' * 33, 'pubkey_hash': h, 'script_hash': h, 'data': b'data', 'claim_name': b'name', 'claim': claim.to_bytes(),
+              'claim_id': b'\x22' * 20, 'support': b''}
+    out = []
+    for t in OutputScript.templates:
+        src = OutputScript(template=t, values={op.name: sample[op.name] for op in t.opcodes if hasattr(op, 'name')}).source
+        out += [src[:k] for k in range(len(src) + 1)] + [src + b'\x00', src + b'\x75']
+    out += [bytes([b]) for b in range(256)]
+    out += [bytes.fromhex(x) for x in (
+        '5121' + '02' * 33 + '51ae', '5221' + '02' * 33 + '21' + '03' * 33 + '21' + '02' * 33 + '53ae', '6a', '6a00', '6a0101', '6a0101010102',
+        '4c', '4c05aa', '4d', '4d01', '4d0100', '4d0200aa', '4e', '4e010000', '4e01000000', '4e0100000041', '0014' + '11' * 20,
+        '0020' + '11' * 32, '5120' + '11' * 32, '41' + '04' * 65 + 'ac', '76a914' + '11' * 19 + '88ac', '76a915' + '11' * 21 + '88ac',
+        'a914' + '11' * 20 + '8700')]
+    for name in (b'\xff\xfe', b'', b'a' * 300, 'ünï'.encode(), b'ok\xc3', b'\x00'):
+        for payload in (b'', b'\x00', b'\xff' * 10, claim.to_bytes(), b'\x01' + b'\x02' * 100):
+            out.append(OutputScript(template=OutputScript.CLAIM_NAME_PUBKEY, values={'claim_name': name, 'claim': payload, 'pubkey_hash': h}).source)
+            out.append(OutputScript(template=OutputScript.UPDATE_CLAIM_PUBKEY,
+                                    values={'claim_name': name, 'claim_id': b'\x01', 'claim': payload, 'pubkey_hash': h}).source)
+            out.append(OutputScript(template=OutputScript.SUPPORT_CLAIM_DATA_PUBKEY,
+                                    values={'claim_name': name, 'claim_id': b'\x01' * 20, 'support': payload, 'pubkey_hash': h}).source)
+        out.append(OutputScript(template=OutputScript.SUPPORT_CLAIM_PUBKEY, values={'claim_name': name, 'claim_id': b'', 'pubkey_hash': h}).source)
+        out.append(OutputScript(template=OutputScript.CLAIM_NAME_SCRIPT, values={'claim_name': name, 'claim': b'', 'script_hash': h}).source)
+    out += [OutputScript.return_data(d).source for d in (b'P' + b'\x00' * 5, b'P', b'\xff' * 80)]
+    seen = set()
+    for s in out:
+        if s not in seen:
+            seen.add(s)
+            yield s
+
+
+def classify_scenario(script, first, spends_mine, to_me):
+    """a confirmed transaction, as received from the server (raw bytes), that pays 777 to the wallet address and carries one more
+    output with `script` (paying the wallet itself when to_me: the placeholder hash is replaced), saved for the wallet address"""
+    import sqlite3
+    ledger = _real_ledger()
+    address = ledger.hash160_to_address(MINE_HASH)
+    conn = sqlite3.connect(':memory:')
+    conn.executescript(Database.CREATE_TABLES_QUERY)
+    funding = Transaction(height=3).add_outputs([Output.pay_pubkey_hash(10 ** 8, MINE_HASH if spends_mine else b'\x33' * 20)])
+    if to_me:
+        script = script.replace(PLACEHOLDER_HASH, MINE_HASH)
+    other, mine = Output(12345, OutputScript(script)), Output.pay_pubkey_hash(777, MINE_HASH)
+    built = Transaction(height=5).add_inputs([Input.spend(funding.outputs[0])]).add_outputs([other, mine] if first else [mine, other])
+    tx = Transaction(built.raw, height=5)
+    if spends_mine:
+        tx.inputs[0].txo_ref = funding.outputs[0].ref
+    try:
+        ledger.db._transaction_io(conn, tx, address, MINE_HASH)
+        return [tuple(r) for r in conn.execute("select address, amount, position from txo order by position").fetchall()], address
+    finally:
+        conn.close()
+
+
+class _Classification:
+    inputs = dict(script=TBytes(), first=TBool(), spends_mine=TBool(), to_me=TBool())
+    bounded_only = True
+
+    def run(script, first, spends_mine, to_me):
+        return classify_scenario(script, first, spends_mine, to_me)
+
+    def ensures_own_output_recorded_and_nothing_foreign_booked_on_the_address(script, first, to_me, result):
+        rows, address = result
+        mine = [r for r in rows if r[0] == address]
+        pays_me = to_me and OutputScript(script.replace(PLACEHOLDER_HASH, MINE_HASH)).values.get('pubkey_hash') == MINE_HASH
+        expected = [(address, 777, 1 if first else 0)] + ([(address, 12345, 0 if first else 1)] if pays_me else [])
+        return sorted(mine) == sorted(expected)
+
+
+def _classification_samples(keep, placements=None):
+    for s in script_corpus():
+        if keep(s):
+            for first in (True, False):
+                for spends_mine in (False, True):
+                    for to_me in (False, True):
+                        if placements is None or (first, spends_mine, to_me) in placements:
+                            yield dict(script=s, first=first, spends_mine=spends_mine, to_me=to_me)
+
+
+@proof("C09", "classification.any-script")
+class Classification(_Classification):
+    """BOUNDED stand-in (the tokenizer loop over arbitrary bytes is outside the generator's reach): the real Database._transaction_io
+    / txo_to_row / tx_to_row on a real sqlite connection, for a transaction that pays the wallet and carries one more output with an
+    ARBITRARY script (before or after ours; the transaction spending from the wallet or not; the extra output paying a third party
+    or the wallet): nothing is raised, our output is recorded, nothing foreign is booked on our address.
+    Excludes exactly the inputs of known findings F10 (script matches no template) and F10b (claim name not UTF-8)."""
+    note = "corpus of script shapes (see script_corpus) x position x spends-from-wallet x pays-wallet, minus the known-finding inputs"
+
+    def requires(script):
+        return not f10_non_template(script) and not f10b_claim_name_not_utf8(script)
+
+    def samples():
+        yield from _classification_samples(lambda s: not f10_non_template(s) and not f10b_claim_name_not_utf8(s))
+
+
+@proof("C09", "classification.known-F10")
+class ClassificationF10(_Classification):
+    """KNOWN FINDING F10 kept alive: the same clause on the scripts that match no template (every truncation of every template, bare
+    multisig, OP_RETURN with two pushes, truncated PUSHDATA...): the real code raises ValueError / struct.error"""
+    note = "the non-template part of the corpus (about 630 scripts) x 2 placements (before ours / after ours in a spend from the wallet)"
+
+    def requires(script):
+        return f10_non_template(script)
+
+    def samples():
+        yield from _classification_samples(f10_non_template, ((True, False, False), (False, True, False)))
+
+
+@proof("C09", "classification.known-F10b")
+class ClassificationF10b(_Classification):
+    """KNOWN FINDING F10b kept alive: the same clause on claim / update / support template scripts whose name is not valid UTF-8:
+    UnicodeDecodeError from txo.claim_name whenever the output has to be stored (pays the wallet, or the wallet spends)"""
+    note = "claim, update and support scripts named ff fe / 'ok' c3, x 8 placements"
+
+    def requires(script):
+        return f10b_claim_name_not_utf8(script)
+
+    def samples():
+        yield from _classification_samples(f10b_claim_name_not_utf8)
+
+
+# ====================================================================== convergence: the real Ledger + Database + Account, fake server
+
+SEED = "carbon smart garage balance margin twelve chest sword toast envelope bottom stomach absent"
+MINE_KINDS = ('plain', 'plain', 'plain', 'stream', 'channel', 'support', 'update')
+OTHER_KINDS = ('p2pkh', 'p2sh', 'p2pk', 'segwit', 'data', 'claim_other', 'support_other', 'claim_p2sh')
+PAYS_A_KEY_HASH = ('plain', 'stream', 'channel', 'support', 'update', 'p2pkh', 'claim_other', 'support_other')
+
+
+def double_sha256(b):
+    return hashlib.sha256(hashlib.sha256(b).digest()).digest()
+
+
+def merkle_root_and_branch(hashes, index):
+    """Bitcoin merkle tree (protocol definition): pairwise double-SHA256, an odd element is paired with itself"""
+    branch, layer, idx = [], list(hashes), index
+    while len(layer) > 1:
+        if len(layer) % 2:
+            layer.append(layer[-1])
+        branch.append(layer[idx ^ 1])
+        layer = [double_sha256(layer[i] + layer[i + 1]) for i in range(0, len(layer), 2)]
+        idx //= 2
+    return layer[0], branch
+
+
+def describe_chain(seed, gaps, stages, third_party_script=None):
+    """THE CHAIN DEFINITION (oracle side, purely descriptive): transactions as dict(no, ins, outs) with
+    ins = ('ext', k) | ('tx', no, n) and outs = (kind, owner, amount), owner = ('mine', chain, index) | ('other', k); and the plan:
+    per stage which transactions appear, how many blocks are mined and how eagerly the mempool is confirmed.
+    Wallet addresses are chosen within the gap limit beyond the highest index used so far (often exactly at the limit) or re-used."""
+    import random
+    r = random.Random(seed)
+    txs, unspent_mine, plan = [], [], []
+    max_used = {0: -1, 1: -1}
+    ext = [0]
+
+    def mine_owner(chain):
+        hi = max_used[chain] + gaps[chain]
+        pick = r.random()
+        if pick < 0.3:
+            idx = hi                                    # the furthest address the gap rule lets the wallet find
+        elif pick < 0.5 and max_used[chain] >= 0:
+            idx = r.randint(0, max_used[chain])         # address re-use
+        else:
+            idx = r.randint(0, hi)
+        max_used[chain] = max(max_used[chain], idx)
+        return ('mine', chain, idx)
+
+    def other_out():
+        ext[0] += 1
+        return (r.choice(OTHER_KINDS) if third_party_script is None else third_party_script, ('other', ext[0]), r.randint(1000, 10 ** 7))
+
+    for s in range(stages):
+        new = []
+        for _ in range(r.randint(1, 4)):
+            no, outs = len(txs), []
+            if unspent_mine and r.random() < 0.6:
+                chosen = r.sample(unspent_mine, r.randint(1, min(3, len(unspent_mine))))
+                for c in chosen:
+                    unspent_mine.remove(c)
+                ins = [('tx', c[0], c[1]) for c in chosen]
+                total = sum(txs[c[0]]['outs'][c[1]][2] for c in chosen)
+                if r.random() < 0.8:
+                    outs.append(other_out())
+                if r.random() < 0.8:
+                    outs.append(('plain', mine_owner(1), max(1, total // 3)))       # change
+                if r.random() < 0.4:
+                    outs.append((r.choice(MINE_KINDS), mine_owner(0), max(1, total // 4)))
+                if not outs:
+                    outs.append(other_out())
+            else:
+                ext[0] += 1
+                ins = [('ext', ext[0])]
+                for _ in range(r.randint(1, 3)):
+                    outs.append((r.choice(MINE_KINDS), mine_owner(0), r.randint(10 ** 5, 10 ** 9)))
+                if r.random() < 0.5:
+                    outs.append(other_out())
+            r.shuffle(outs)
+            txs.append(dict(no=no, ins=ins, outs=outs))
+            unspent_mine += [(no, j) for j, o in enumerate(outs) if o[1][0] == 'mine']
+            new.append(no)
+        plan.append(dict(new=new, blocks=r.randint(0, 2), confirm=r.random()))
+    return txs, plan
+
+
+def make_output(kind, amount, h160, k, claim_name=None):
+    from lbry.schema.claim import Claim
+    name = claim_name if claim_name is not None else b'name%d' % (k % 5)
+    if kind in ('plain', 'p2pkh'):
+        return Output.pay_pubkey_hash(amount, h160)
+    if kind in ('stream', 'channel', 'update', 'claim_other', 'claim_p2sh'):
+        claim = Claim()
+        if kind == 'channel':
+            claim.channel.public_key_bytes = b'\x02' + bytes([k % 256]) * 32
+        else:
+            claim.stream.title = 'title %d' % k
+        if kind == 'update':
+            return Output(amount, OutputScript.pay_update_claim_pubkey_hash(name, bytes([k % 256]) * 20, claim, h160))
+        if kind == 'claim_p2sh':
+            return Output(amount, OutputScript(template=OutputScript.CLAIM_NAME_SCRIPT, values={'claim_name': name, 'claim': claim, 'script_hash': h160}))
+        return Output(amount, OutputScript.pay_claim_name_pubkey_hash(name, claim, h160))
+    if kind in ('support', 'support_other'):
+        return Output(amount, OutputScript.pay_support_pubkey_hash(name, bytes([k % 256]) * 20, h160))
+    if kind == 'p2sh':
+        return Output.pay_script_hash(amount, h160)
+    if kind == 'p2pk':
+        return Output(amount, OutputScript(template=OutputScript.PAY_PUBKEY_FULL, values={'pubkey': b'\x03' + h160 + b'\x01' * 12}))
+    if kind == 'segwit':
+        return Output(amount, OutputScript(template=OutputScript.PAY_SEGWIT, values={'script_hash': h160}))
+    if kind == 'data':
+        return Output(0, OutputScript.return_data(b'third-party data %d' % k))
+    if isinstance(kind, bytes):
+        return Output(amount, OutputScript(kind))
+    raise ValueError(kind)
+
+
+class FakeServer:
+    """stands in for ledger.network: the address-history protocol of a wallet server over a chain that only grows.
+    History of an address: the transactions with an output paying it or an input spending such an output - confirmed ones by
+    (height, position in block), then the mempool in arrival order with height 0, or -1 when a parent is unconfirmed;
+    status: hex SHA-256 of the "txid:height:" string, None for no history.  Which transaction touches which address comes from
+    the chain DEFINITION, not from parsing scripts.  Every call yields to the event loop a random number of times."""
+
+    def __init__(self, rnd):
+        from lbry.wallet.stream import StreamController
+        self.rnd = rnd
+        self.height = 0
+        self.merkle_roots = {0: b'00' * 32}
+        self.block_txs = {}
+        self.tx, self.where, self.touch, self.parents = {}, {}, {}, {}
+        self.mempool, self.subscribed, self.notified = [], [], {}
+        self._on_status_controller = StreamController()
+        self.on_status = self._on_status_controller.stream
+        self.on_header = StreamController().stream
+        self.is_connected = True
+        self.client = None
+        self.calls = 0
+
+    async def _yield(self):
+        self.calls += 1
+        for _ in range(self.rnd.randint(0, 3)):
+            await asyncio.sleep(0)
+
+    # ---- chain growth
+    def add_mempool(self, tx, touches, parents):
+        self.tx[tx.id] = tx
+        self.where[tx.id] = None
+        self.mempool.append(tx.id)
+        self.touch[tx.id] = set(touches)
+        self.parents[tx.id] = set(parents)
+
+    def mine_block(self, eagerness):
+        from binascii import hexlify
+        self.height += 1
+        ordered = []
+        for t in list(self.mempool):        # arrival order is a topological order; a transaction is mined with or after its parents
+            if self.rnd.random() < eagerness and all(self.where.get(p, 0) is not None or p in ordered for p in self.parents[t]):
+                ordered.append(t)
+        for pos, t in enumerate(ordered):
+            self.where[t] = (self.height, pos)
+            self.mempool.remove(t)
+        root = merkle_root_and_branch([self.tx[t].hash for t in ordered], 0)[0] if ordered else b'\x00' * 32
+        self.merkle_roots[self.height] = hexlify(root[::-1])
+        self.block_txs[self.height] = ordered
+
+    def height_of(self, txid):
+        w = self.where[txid]
+        if w is not None:
+            return w[0]
+        return -1 if any(self.where.get(p, 0) is None for p in self.parents[txid]) else 0
+
+    def history(self, address):
+        conf = sorted((self.where[t], t) for t in self.tx if self.where[t] is not None and address in self.touch[t])
+        return [(t, w[0]) for w, t in conf] + [(t, self.height_of(t)) for t in self.mempool if address in self.touch[t]]
+
+    def status(self, address):
+        h = self.history(address)
+        return hashlib.sha256(server_history_string(h).encode()).hexdigest() if h else None
+
+    # ---- what the ledger calls
+    async def retriable_call(self, function, *args, **kwargs):
+        return await function(*args, **kwargs)
+
+    async def subscribe_address(self, address, *addresses):
+        await self._yield()
+        out = []
+        for a in (address,) + addresses:
+            if a not in self.subscribed:
+                self.subscribed.append(a)
+            self.notified[a] = self.status(a)
+            out.append(self.notified[a])
+        return out
+
+    async def get_history(self, address):
+        await self._yield()
+        return [{'tx_hash': t, 'height': n} for t, n in self.history(address)]
+
+    def _merkle(self, txid):
+        from binascii import hexlify
+        w = self.where[txid]
+        if w is None:
+            return {'block_height': -1}
+        branch = merkle_root_and_branch([self.tx[t].hash for t in self.block_txs[w[0]]], w[1])[1]
+        return {'block_height': w[0], 'pos': w[1], 'merkle': [hexlify(b[::-1]).decode() for b in branch]}
+
+    async def get_merkle(self, txid, height):
+        await self._yield()
+        return self._merkle(txid)
+
+    async def get_transaction_batch(self, txids, restricted=True):
+        from binascii import hexlify
+        await self._yield()
+        return {t: (hexlify(self.tx[t].raw).decode(), self._merkle(t)) for t in txids}
+
+    # ---- notifications
+    def pending_notifications(self):
+        out = []
+        for a in self.subscribed:
+            s = self.status(a)
+            if s != self.notified.get(a):
+                self.notified[a] = s
+                out.append((a, s))
+        return out
+
+    def notify(self, update):
+        self._on_status_controller.add(update)
+
+
+async def run_sync(seed, gaps=(4, 3), stages=4, mode='mixed', third_party_script=None, claim_name=None):
+    """build the wallet, grow the chain in stages, deliver the notifications, compare with the oracle; returns the discrepancies"""
+    import os
+    import random
+    import shutil
+    import tempfile
+    from lbry.wallet import Wallet, Account, Headers
+
+    class ChainHeaders(Headers):
+        """header store filled by the fake server (merkle roots of its blocks); everything else is the real class"""
+
+        def __len__(self):
+            return server.height + 1
+
+        async def get(self, height):
+            return {'merkle_root': server.merkle_roots[height], 'block_height': height}
+
+    rnd = random.Random(seed * 7919 + 1)
+    d = tempfile.mkdtemp(prefix='c09_')
+    server = FakeServer(rnd)
+    ledger = Ledger({'db': Database(os.path.join(d, 'blockchain.db')), 'headers': ChainHeaders(':memory:'), 'network': server})
+    ledger.headers.checkpoints = {}
+    await ledger.db.open()
+    problems, failures = [], []
+    real_update = ledger.update_history
+
+    async def recording_update(address, remote_status, address_manager=None, reattempt_update=True):
+        try:        # instrumentation only: TaskGroup swallows what an update task raises
+            return await real_update(address, remote_status, address_manager, reattempt_update)
+        except Exception as e:      # noqa
+            failures.append(f'update_history({address}) raised {type(e).__name__}: {str(e)[:80]}')
+            raise
+    ledger.update_history = recording_update
+    try:
+        account = Account.from_dict(ledger, Wallet(), {"seed": SEED, "address_generator": {
+            'name': 'deterministic-chain', 'receiving': {'gap': gaps[0], 'maximum_uses_per_address': 1},
+            'change': {'gap': gaps[1], 'maximum_uses_per_address': 1}}})
+        txs, plan = describe_chain(seed, {0: gaps[0], 1: gaps[1]}, stages, third_party_script)
+        addr_cache, built = {}, {}
+
+        def address_of(owner):
+            if owner not in addr_cache:
+                if owner[0] == 'mine':      # BIP32 public derivation m/chain/index (C06)
+                    addr_cache[owner] = account.address_managers[owner[1]].public_key.child(owner[2]).address
+                else:
+                    addr_cache[owner] = ledger.hash160_to_address(hashlib.sha256(b'other%d' % owner[1]).digest()[:20])
+            return addr_cache[owner]
+
+        def build(desc):
+            ins, parents, touches = [], [], []
+            for i in desc['ins']:
+                if i[0] == 'ext':
+                    src = Transaction().add_outputs([Output.pay_pubkey_hash(10 ** 10 + i[1], hashlib.sha256(b'ext%d' % i[1]).digest()[:20])])
+                    ins.append(Input.spend(src.outputs[0]))
+                else:
+                    ins.append(Input.spend(built[i[1]].outputs[i[2]]))
+                    parents.append(built[i[1]].id)
+                    if txs[i[1]]['outs'][i[2]][0] in PAYS_A_KEY_HASH:
+                        touches.append(address_of(txs[i[1]]['outs'][i[2]][1]))
+            outs = []
+            for j, (kind, owner, amount) in enumerate(desc['outs']):
+                a = address_of(owner)
+                outs.append(make_output(kind, amount, ledger.address_to_hash160(a), desc['no'] * 4 + j,
+                                        claim_name if owner[0] == 'mine' else None))
+                if kind in PAYS_A_KEY_HASH:
+                    touches.append(a)
+            built[desc['no']] = Transaction().add_inputs(ins).add_outputs(outs)
+            return built[desc['no']], touches, parents
+
+        async def settle():
+            for _ in range(500):
+                await ledger._update_tasks.done.wait()
+                await asyncio.sleep(0)
+                if not len(ledger._update_tasks):
+                    return
+            problems.append('update tasks never settle')
+
+        stale = []
+        for s, step in enumerate(plan):
+            for no in step['new']:
+                server.add_mempool(*build(txs[no]))
+            for _ in range(step['blocks']):
+                server.mine_block(step['confirm'])
+            if s == 0:
+                await ledger.subscribe_account(account)     # the real entry point: subscribe, first statuses, gap discovery
+                await settle()
+                continue
+            notes = server.pending_notifications()
+            rnd.shuffle(notes)
+            m = mode if mode != 'mixed' else rnd.choice(['sequential', 'concurrent', 'gather', 'deferred'])
+            if m == 'deferred' and s + 1 < len(plan):
+                stale += notes          # delivered late, after the chain has grown again (their statuses are stale then)
+                continue
+            notes, stale = stale + notes, []
+            if m == 'sequential':
+                for n in notes:
+                    server.notify(n)
+                    await settle()
+            elif m == 'gather':
+                await asyncio.gather(*(ledger.update_history(a, st) for a, st in notes + notes[:2]), return_exceptions=True)
+                await settle()
+            else:
+                for n in notes + notes[:2]:     # all at once, the first two twice (same address concurrently)
+                    server.notify(n)
+                await settle()
+        for n in stale + server.pending_notifications():
+            server.notify(n)
+        await settle()
+        for a in list(server.subscribed):       # a server always ends up sending the latest status of every subscribed address
+            if (await ledger.get_local_status_and_history(a))[0] != server.status(a):
+                server.notify((a, server.status(a)))
+        await settle()
+        problems += failures[:3]
+
+        # ---------------- the oracle, from the chain definition
+        known = [t for t in txs if t['no'] in built]
+        spent = {(i[1], i[2]) for t in known for i in t['ins'] if i[0] == 'tx'}
+        mine_unspent = [(t['no'], j, o) for t in known for j, o in enumerate(t['outs']) if o[1][0] == 'mine' and (t['no'], j) not in spent]
+        exp_spendable = sorted(f"{built[no].id}:{j}" for no, j, o in mine_unspent if o[0] == 'plain')
+        exp_balance = sum(o[2] for no, j, o in mine_unspent if o[0] == 'plain')
+        exp_claims = sum(o[2] for no, j, o in mine_unspent if o[0] in ('stream', 'channel', 'update'))
+        exp_supports = sum(o[2] for no, j, o in mine_unspent if o[0] == 'support')
+        exp_confirmed = sum(o[2] for no, j, o in mine_unspent if o[0] == 'plain' and server.where[built[no].id] is not None)
+        got_utxos = sorted(u.id for u in await account.get_utxos())
+        if got_utxos != exp_spendable:
+            problems.append(f'spendable set differs: missing {sorted(set(exp_spendable) - set(got_utxos))[:3]} '
+                            f'extra {sorted(set(got_utxos) - set(exp_spendable))[:3]}')
+        bal = await account.get_balance()
+        if bal != exp_balance:
+            problems.append(f'balance {bal} != {exp_balance}')
+        total = await account.get_balance(include_claims=True)
+        if total != exp_balance + exp_claims + exp_supports:
+            problems.append(f'balance incl. claims {total} != {exp_balance + exp_claims + exp_supports}')
+        det = await account.get_detailed_balance()
+        sub = det['reserved_subtotals']
+        if (det['total'], det['available'], det['reserved'], sub['claims'], sub['supports'] + sub['tips']) != \
+                (exp_balance + exp_claims + exp_supports, exp_balance, exp_claims + exp_supports, exp_claims, exp_supports):
+            problems.append(f'detailed balance {det} != available {exp_balance} claims {exp_claims} supports {exp_supports}')
+        cbal = await account.get_balance(confirmations=1)
+        if cbal != exp_confirmed:
+            problems.append(f'confirmed balance {cbal} != {exp_confirmed}')
+        for tx in await account.get_transactions():
+            if tx.id not in server.tx or tx.height != server.height_of(tx.id):
+                problems.append(f'stored transaction {tx.id} at height {tx.height}, server: {server.height_of(tx.id) if tx.id in server.tx else None}')
+        used_max = {0: -1, 1: -1}
+        for t in known:
+            for o in t['outs']:
+                if o[1][0] == 'mine':
+                    used_max[o[1][1]] = max(used_max[o[1][1]], o[1][2])
+        for chain in (0, 1):
+            records = await account.address_managers[chain]._query_addresses(order_by="n asc")
+            ns = [rec['pubkey'].n for rec in records]
+            if ns != list(range(len(ns))):
+                problems.append(f'chain {chain}: address indices not consecutive {ns}')
+            if len(ns) < used_max[chain] + 1 + gaps[chain]:
+                problems.append(f'chain {chain}: {len(ns)} addresses, last used {used_max[chain]}, gap {gaps[chain]}: gap not kept / funds not found')
+            for rec in records:
+                where = f'chain {chain} n {rec["pubkey"].n}'
+                if rec['address'] != address_of(('mine', chain, rec['pubkey'].n)):
+                    problems.append(f'{where}: address differs from the derivation')
+                exp_h = server.history(rec['address'])
+                got_h = (await ledger.get_local_status_and_history(rec['address']))[1]
+                if got_h != exp_h:
+                    problems.append(f'{where}: stored history {got_h} != server {exp_h}')
+                if (rec['used_times'] > 0) != (len(exp_h) > 0):
+                    problems.append(f'{where}: used_times {rec["used_times"]} with {len(exp_h)} transactions')
+                if rec['address'] not in server.subscribed:
+                    problems.append(f'{where}: never subscribed')
+            for rec in records[-gaps[chain]:]:
+                if rec['used_times'] != 0 or server.history(rec['address']):
+                    problems.append(f'chain {chain}: address {rec["pubkey"].n} among the last {gaps[chain]} is used')
+        return problems[:4]
+    finally:
+        await ledger.db.close()
+        shutil.rmtree(d, ignore_errors=True)
+
+
+class _Convergence:
+    bounded_only = True
+    inputs = dict(seed=TInt(0, 10 ** 9), recv_gap=TInt(1, 100), change_gap=TInt(1, 100), stages=TInt(1, 20), mode=TStr())
+
+    def run(seed, recv_gap, change_gap, stages, mode):
+        return asyncio.run(run_sync(seed, (recv_gap, change_gap), stages, mode))
+
+    def ensures_wallet_equals_the_oracle(result):
+        return result == []
+
+
+CONVERGENCE_DOC = (
+    "BOUNDED stand-in for the convergence clauses on the REAL Ledger + sqlite Database + Account with a fake wallet server in place of "
+    "ledger.network: seeded random chains (funding, spending, claims, channels, supports, updates, re-spends of unconfirmed outputs, "
+    "third-party outputs of every template kind, address re-use, payments at the far end of the gap), grown in stages (blocks and mempool; "
+    "mempool transactions get confirmed later, heights -1 -> 0 -> n); first sync through subscribe_account, then the status "
+    "notifications of every stage in random order: one by one, all at once through process_status_update (two of them twice), as gathered "
+    "update_history calls, or withheld and delivered stale after the next stage.  Oracle from the chain definition: stored history of "
+    "every address == server history; balance / balance incl. claims / detailed balance (claims and supports apart) / confirmed balance; "
+    "get_utxos() ids; stored heights; addresses consecutive, the last `gap` of each chain unused, enough of them for the furthest payment, "
+    "all subscribed; no update task raised. ")
+
+
+@proof("C09", "sync.convergence[gaps 4/3]")
+class Convergence(_Convergence):
+    __doc__ = CONVERGENCE_DOC + "Receiving gap 4, change gap 3, 4 stages."
+    note = "about 50 seeds within the quick budget / 700 seeds (thorough): chains of 4..16 transactions, 20..50 addresses, mixed delivery modes"
+
+    def samples():
+        for seed in range(700):
+            yield dict(seed=seed, recv_gap=4, change_gap=3, stages=4, mode='mixed')
+
+
+@proof("C09", "sync.convergence[modes]")
+class ConvergenceModes(_Convergence):
+    __doc__ = CONVERGENCE_DOC + "Each delivery mode on its own, gaps 2/1 .. 6/4, 3..6 stages."
+    note = "about 50 cases within the quick budget / 520 (thorough): 4 delivery modes x gaps (2,1) (3,2) (5,2) (6,4) x 3..6 stages, own seeds"
+
+    def samples():
+        k = 0
+        for rep in range(40):
+            for gaps in ((2, 1), (3, 2), (5, 2), (6, 4)):
+                for mode in ('sequential', 'concurrent', 'gather', 'deferred'):
+                    k += 1
+                    if (k + rep) % 4 == 0 or rep >= 10:
+                        yield dict(seed=1000 + k, recv_gap=gaps[0], change_gap=gaps[1], stages=3 + k % 4, mode=mode)
+
+
+@proof("C09", "sync.convergence[default gaps 20/6]")
+class ConvergenceDefaultGaps(_Convergence):
+    __doc__ = CONVERGENCE_DOC + "The default gaps of an account: receiving 20, change 6."
+    note = "as many of 150 seeds as fit the budget (quick: about 15), 4 stages, mixed delivery"
+
+    def samples():
+        for seed in range(150):
+            yield dict(seed=5000 + seed, recv_gap=20, change_gap=6, stages=4, mode='mixed')
+
+
+class _Hostile:
+    bounded_only = True
+    inputs = dict(seed=TInt(0, 10 ** 9), script=TBytes(), claim_name=TBytes())
+
+    def run(seed, script, claim_name):
+        return asyncio.run(run_sync(seed, (4, 3), 3, 'mixed', script, claim_name))
+
+    def ensures_wallet_equals_the_oracle(result):
+        return result == []
+
+
+@proof("C09", "sync.unusual-outputs")
+class UnusualOutputs(_Hostile):
+    """BOUNDED: the same end-to-end run where EVERY third-party output carries one given script and every claim / support paying the
+    wallet one given name: template scripts of unusual kinds (P2PK with a 65-byte key, witness programs, OP_RETURN, empty script, support
+    to a script hash) and unusual but valid names (empty, non-ASCII, 255 bytes).  Excludes the inputs of F10 / F10b."""
+    note = "6 scripts x 4 names, one seed each"
+
+    def requires(script, claim_name):
+        return not f10_non_template(script) and is_utf8(claim_name)
+
+    def samples():
+        scripts = [bytes.fromhex(x) for x in ('41' + '04' * 65 + 'ac', '0014' + '11' * 20, '0020' + '11' * 32, '6a0474657374', '')] + \
+            [OutputScript(template=OutputScript.SUPPORT_CLAIM_SCRIPT, values={'claim_name': b'n', 'claim_id': b'\x01' * 20, 'script_hash': b'\x11' * 20}).source]
+        k = 0
+        for s in scripts:
+            for name in (b'', 'ünï-名前'.encode(), b'a' * 255, b'plain'):
+                k += 1
+                yield dict(seed=9000 + k, script=s, claim_name=name)
+
+
+@proof("C09", "sync.unusual-outputs.known-F10")
+class UnusualOutputsF10(_Hostile):
+    """KNOWN FINDING F10 end to end: one third-party output with a script that matches no template (bare multisig, OP_RETURN with two
+    pushes, truncated PUSHDATA2) in a transaction that pays the wallet: the update task raises, the history is never stored"""
+    note = "3 scripts"
+
+    def requires(script):
+        return f10_non_template(script)
+
+    def samples():
+        for k, x in enumerate(('5121' + '02' * 33 + '51ae', '6a0101010102', '4d01')):
+            yield dict(seed=9100 + k, script=bytes.fromhex(x), claim_name=b'plain')
+
+
+@proof("C09", "sync.unusual-outputs.known-F10b")
+class UnusualOutputsF10b(_Hostile):
+    """KNOWN FINDING F10b end to end: a claim / support paying a wallet address under a name that is not valid UTF-8: the update task
+    of that address raises UnicodeDecodeError, its history is never stored"""
+    note = "2 names"
+
+    def requires(claim_name):
+        return not is_utf8(claim_name)
+
+    def samples():
+        for k, name in enumerate((b'\xff\xfe', b'ok\xc3')):
+            yield dict(seed=9200 + k, script=bytes.fromhex('76a914' + '11' * 20 + '88ac'), claim_name=name)
+
+
+TRUSTED = [
+    "asyncio.Lock / sleep / coroutine semantics as modelled in pyvc/pymodels.py (cooperative scheduling, nothing pre-empts between awaits)",
+    "operator.itemgetter and the built-in set: the documented semantics as written in ItemGetter / ListSet above (symbolic side only)",
+    "contract of Ledger.get_local_status_and_history used by the update_history proofs (first call = stored state; second call = a status "
+    "and a list): cross-checked by the bounded stand-in history-string.parse-back; contract of request_synced_transactions (one "
+    "transaction per requested entry, with the requested id; heights as requested - _single_batch builds Transaction(raw, height=...))",
+    "call-site contract of the SQL layer used by the deductive proofs: GapDb (ORDER BY n DESC LIMIT k, INSERT OR IGNORE of unused rows), "
+    "IoConn (statements are recorded, their effect is sqlite's); cross-checked on real sqlite by the bounded stand-ins",
+    "address <-> hash160 is a bijection (Base58Check, C06): the transaction_io proof writes an address as the tagged hash; the oracle of "
+    "the bounded runs derives wallet addresses with the real BIP32 public derivation (C06)",
+    "struct / BytesIO / sha256 models of the transaction serialiser (C05) in transaction_io.rows (the txid is an uninterpreted digest)",
+    "the fake server is the address-history protocol as documented (history order, mempool heights 0/-1, status = SHA-256 of "
+    "'txid:height:'...); its merkle proofs are real (Bitcoin merkle tree), its header store is the real Headers class with two overrides",
+]
+NOT_DECIDED = [
+    "the convergence clauses themselves (history of every address, balance, UTXO set, gap discovery, independence from order and "
+    "interleaving) are NOT proved: only the bounded stand-ins sync.convergence[...] on seeded chains of <= ~25 transactions",
+    "update_history deductively: server lists of more than 3 transactions, stored histories of more than 3 entries, more than one batch "
+    "(> 100 transactions per address: outside the statement), two updates of one address interleaved (only 'everything under the lock' "
+    "is proved; real interleavings are bounded)",
+    "a server that re-orders or withdraws entries while every (txid, height) it lists is already stored: update_history returns without "
+    "saving (warning only) - outside the statement (the server never retracts)",
+    "get_local_status_and_history and _sync deductively (engine gaps C09_1, C09_4: bounded stand-ins), request_transactions / "
+    "_single_batch / maybe_verify_transaction / save_transaction_io_batch per call (covered end to end by the bounded runs only)",
+    "classification of ARBITRARY script bytes deductively (tokenizer loop): bounded corpus; the SQL aggregates behind get_balance / "
+    "get_utxos (executed by real sqlite in the bounded runs)",
+    "restart of the wallet in the middle of a sync, reorganisations, several accounts or wallets on one ledger, SingleKey accounts",
+]
+ASSUMPTIONS = [
+    "update_history proofs: transaction ids are fixed distinct 64-hex strings (the code uses ids only for equality, as dictionary keys and "
+    "in string formatting); the server lists a transaction once; fetched transactions arrive in request order or reversed",
+    "the server is honest and consistent: histories only grow, a mempool transaction keeps its place until it is confirmed",
+    "known findings F10 / F10b: the deductive and bounded main proofs exclude exactly the scripts that match no template and the claim "
+    "names that are not UTF-8; the *.known-* proofs keep the witnesses alive",
+]
